@@ -10,3 +10,4 @@ import TradingVerif.Props.C05
 #print axioms TV.weight_def
 #print axioms TV.notional_def
 #print axioms TV.nlv_decomposition_inv
+#print axioms TV.flat_margin_zero_after_mark
